@@ -5,6 +5,7 @@ import ChythonModel.Proofs.C20Parity
 import ChythonModel.Proofs.C20Graph
 import ChythonModel.Proofs.C20Bonds
 import ChythonModel.Proofs.C20Conformers
+import ChythonModel.Proofs.C20FromFinal
 /-!
 # C20 — RDKit bridge preserves structure and configuration in both directions
 
@@ -800,5 +801,155 @@ example : addConformers [7, 3, 5] [[(5, (1, 2, 3)), (7, (4, 5, 6))]] [] =
     .ok [⟨true, [(4, 5, 6), (0, 0, 0), (1, 2, 3)]⟩] := by decide
 example : addConformers [7, 3, 5] [[(7, (4, 5, 6)), (3, (1, 1, 1))]] [] = .error .runtime := by decide
 example : addConformers [7, 3, 5] [[(7, (4, 5, 6)), (9, (1, 1, 1)), (5, (0, 0, 0))]] [] = .error (.py .keyError) := by decide
+
+/-! ## `from_rdkit_molecule` to its return value (`fix_structure` + `fix_stereo`, `Model/C20FromFinal.lean`) -/
+section FromFinal
+open ChythonModel.Model.StereoFix ChythonModel.Proofs.C12Fix
+
+/-- `fix_stereo` touches labels only: with all labels erased the molecule is what it was -/
+theorem fix_stereo_mol_structure (ch : List Label → SUnit → Bool) (m : Mol) (env : StereoEnv) (sc : List Cumulene) :
+    clearLabels (fixStereoMol ch m env sc).1 = clearLabels m := by
+  simp [fixStereoMol, clearLabels_foldl, clearLabels_idem]
+
+/-- **the tail of `from_rdkit_molecule` changes nothing but labels**: whatever the `chiral_*` sets answer, the returned molecule
+has the atoms, hydrogens, charges, isotopes, radicals, bonds, `parsed_mapping` and `xy` that the transfer loops built (`fromRd`),
+and without any chiral tag / E-Z mark on the RDKit side `fix_stereo` is not even called. -/
+theorem from_final_structure (r : RMol) (nbrs : List (List Nat)) (ch : List Label → SUnit → Bool) (c' : CMol) (o : Option Out)
+    (h : fromRdFinal r nbrs ch = .ok (c', o)) :
+    ∃ c, fromRd r nbrs = .ok c ∧ c'.pmap = c.pmap ∧ c'.xy = c.xy ∧ clearLabels c'.mol = clearLabels c.mol ∧
+      (o = none → c' = c) ∧
+      (∀ c0 tet ct, fromGraph r nbrs = .ok (c0, tet, ct) → (o = none ↔ tet = [] ∧ ct = [])) := by
+  unfold fromRdFinal at h
+  cases hg : fromGraph r nbrs with
+  | error e => simp [hg, bind, Except.bind] at h
+  | ok v =>
+    obtain ⟨c0, tet, ct⟩ := v
+    cases hsc : liftPy (stereogenicCumulenes c0.mol) with
+    | error e => simp [hg, hsc, bind, Except.bind] at h
+    | ok sc =>
+      cases henv : liftPy (stereoEnvOf c0.mol) with
+      | error e => simp [hg, hsc, henv, bind, Except.bind] at h
+      | ok env =>
+        cases hw : fromRdWith r nbrs env with
+        | error e => simp [hg, hsc, henv, hw, bind, Except.bind] at h
+        | ok c =>
+          simp only [hg, hsc, henv, hw, bind, Except.bind, pure, Except.pure] at h
+          refine ⟨c, by simp [fromRd, hg, henv, hw, bind, Except.bind], ?_⟩
+          split at h
+          · rename_i hemp
+            simp only [Except.ok.injEq, Prod.mk.injEq] at h
+            obtain ⟨rfl, rfl⟩ := h
+            refine ⟨rfl, rfl, rfl, fun _ => rfl, ?_⟩
+            intro c0' tet' ct' he
+            simp only [Except.ok.injEq, Prod.mk.injEq] at he
+            obtain ⟨_, rfl, rfl⟩ := he
+            simpa using hemp
+          · rename_i hemp
+            simp only [Except.ok.injEq, Prod.mk.injEq] at h
+            obtain ⟨rfl, rfl⟩ := h
+            refine ⟨rfl, rfl, fix_stereo_mol_structure ch c.mol env sc, ?_, ?_⟩
+            · intro hn; cases hn
+            intro c0' tet' ct' he
+            simp only [Except.ok.injEq, Prod.mk.injEq] at he
+            obtain ⟨_, rfl, rfl⟩ := he
+            constructor
+            · intro hn; cases hn
+            · intro hh; exact absurd (by simpa using hh) hemp
+
+/-- **soundness of the returned atom labels**: a label on an atom of the molecule `fix_stereo` leaves behind is the label the
+transfer put there (same sign), the atom is a key of `stereogenic_tetrahedrons` (or an allene centre), and its unit was reported
+chiral for the labels restored before it (an initial segment `q` of the final labels) — nothing is invented, nothing flips. -/
+theorem fix_stereo_mol_atom_sound (ch : List Label → SUnit → Bool) (m : Mol) (env : StereoEnv) (sc : List Cumulene)
+    (n : Nat) (a' : Atom) (s : Bool) (h : (n, a') ∈ (fixStereoMol ch m env sc).1.atoms) (hs : a'.stereo = some s) :
+    (∃ a, (n, a) ∈ m.atoms ∧ a.stereo = some s) ∧
+    ∃ u : SUnit, u.a = n ∧ (u, s) ∈ (fixStereoMol ch m env sc).2.labels ∧
+      ((u.kind = .tetra ∧ (env.stet.lookup n).isSome = true) ∨ (u.kind = .allene ∧ n ∈ allenesOf sc)) ∧
+      ∃ q, q <+: (fixStereoMol ch m env sc).2.labels ∧ ch q u = true := by
+  simp only [fixStereoMol] at h ⊢
+  rcases foldl_atom_label _ _ n a' s h hs with ⟨l, hl, hk, ha, hsg⟩ | ⟨a0, ha0, hs0⟩
+  · obtain ⟨hcol, q, hq, hch⟩ := ChythonModel.Props.C12.fix_stereo_sound ch _ _ l hl
+    obtain ⟨u, sg⟩ := l
+    simp only at hk ha hsg
+    subst hsg
+    have hrule := collectAtoms_rule (fixAtomsIn m env (allenesOf sc)) u sg
+    simp only [collect] at hcol
+    rcases List.mem_append.mp hcol with h1 | h3
+    · rcases List.mem_append.mp h1 with ht | hal
+      · obtain ⟨x, hx, hxs, hxt, hu⟩ := hrule.1.mp ht
+        simp only [fixAtomsIn, List.mem_map] at hx
+        obtain ⟨⟨n0, a0⟩, hmem, rfl⟩ := hx
+        subst hu
+        simp only at ha hxs hxt
+        subst ha
+        exact ⟨⟨a0, hmem, hxs⟩, _, rfl, hl, .inl ⟨rfl, hxt⟩, q, hq, hch⟩
+      · obtain ⟨x, hx, hxs, _, hxa, hu⟩ := hrule.2.mp hal
+        simp only [fixAtomsIn, List.mem_map] at hx
+        obtain ⟨⟨n0, a0⟩, hmem, rfl⟩ := hx
+        subst hu
+        simp only at ha hxs hxa
+        subst ha
+        exact ⟨⟨a0, hmem, hxs⟩, _, rfl, hl, .inr ⟨rfl, by simpa using hxa⟩, q, hq, hch⟩
+    · obtain ⟨b, _, _, _, ta, _, _, hu⟩ := (collectBonds_rule _ u sg).mp h3
+      subst hu
+      exact absurd rfl hk
+  · exact absurd hs0 (clearLabels_no_atom_label m n a0 s ha0)
+
+/-- **completeness for the returned atom labels** (the loop reaches a fixpoint; atom numbers distinct): a label the transfer put
+on a stereogenic tetrahedron whose unit is chiral with respect to the labels finally present IS on the returned molecule, with
+its sign — in particular a centre that is stereogenic only through labels restored in an earlier round (pseudo-asymmetric
+centres): a single pass over the labels is not what the code does. -/
+theorem fix_stereo_mol_atom_complete (ch : List Label → SUnit → Bool) (m : Mol) (env : StereoEnv) (sc : List Cumulene)
+    (hnd : m.ids.Nodup) (n : Nat) (a : Atom) (s : Bool) (ha : (n, a) ∈ m.atoms) (hs : a.stereo = some s)
+    (ht : (env.stet.lookup n).isSome = true)
+    (hc : ch (fixStereoMol ch m env sc).2.labels ⟨.tetra, n, 0⟩ = true) :
+    ∀ a', (n, a') ∈ (fixStereoMol ch m env sc).1.atoms → a'.stereo = some s := by
+  simp only [fixStereoMol] at hc ⊢
+  have hx : (⟨n, a.stereo, (env.stet.lookup n).isSome, (allenesOf sc).contains n⟩ : AtomIn) ∈ fixAtomsIn m env (allenesOf sc) :=
+    List.mem_map.mpr ⟨(n, a), ha, rfl⟩
+  have hq : ((⟨.tetra, n, 0⟩ : SUnit), s) ∈ collect (fixAtomsIn m env (allenesOf sc)) (fixBondsIn m (terminalsOf sc)) := by
+    simp only [collect]
+    apply List.mem_append_left
+    apply List.mem_append_left
+    exact (collectAtoms_rule _ _ s).1.mpr ⟨_, hx, hs, ht, rfl⟩
+  have hin := ChythonModel.Props.C12.fix_stereo_complete ch _ _ _ hq hc
+  apply foldl_atom_label_present s n _ (clearLabels m)
+  · intro l hl hk hla
+    obtain ⟨hcol, _⟩ := ChythonModel.Props.C12.fix_stereo_sound ch _ _ l hl
+    obtain ⟨u, sg⟩ := l
+    simp only at hk hla ⊢
+    have hrule := collectAtoms_rule (fixAtomsIn m env (allenesOf sc)) u sg
+    simp only [collect] at hcol
+    have fromItem : ∀ x : AtomIn, x ∈ fixAtomsIn m env (allenesOf sc) → x.stereo = some sg → x.n = n → sg = s := by
+      intro x hxm hxs hxn
+      have := fixAtomsIn_unique m env (allenesOf sc) hnd x _ hxm hx hxn
+      subst this
+      simp only at hxs
+      rw [hs] at hxs
+      exact (Option.some.inj hxs).symm
+    rcases List.mem_append.mp hcol with h1 | h3
+    · rcases List.mem_append.mp h1 with ht' | hal
+      · obtain ⟨x, hxm, hxs, _, hu⟩ := hrule.1.mp ht'
+        subst hu
+        exact fromItem x hxm hxs hla
+      · obtain ⟨x, hxm, hxs, _, _, hu⟩ := hrule.2.mp hal
+        subst hu
+        exact fromItem x hxm hxs hla
+    · obtain ⟨b, _, _, _, ta, _, _, hu⟩ := (collectBonds_rule _ u sg).mp h3
+      subst hu
+      exact absurd rfl hk
+  · exact .inl ⟨_, hin, by simp, rfl⟩
+
+/-- hypotheses of the two theorems above are satisfiable and the second round matters: 2,3,4-pentanetriol-like situation — atoms
+2 and 4 chiral on constitution, atom 3 only once 2 and 4 carry labels; all three labels come back -/
+example :
+    let m : Mol := ⟨[(1, { z := 6 }), (2, { z := 6, stereo := some true }), (3, { z := 6, stereo := some false }),
+                     (4, { z := 6, stereo := some false }), (5, { z := 6 })], []⟩
+    let env : StereoEnv := ⟨[(2, [1, 3, 6]), (3, [2, 4, 7]), (4, [3, 5, 8])], [], []⟩
+    let ch : List Label → SUnit → Bool := fun r u => u.a != 3 || r.length ≥ 2
+    ((fixStereoMol ch m env []).1.atoms.map fun (n, a) => (n, a.stereo)) =
+      [(1, none), (2, some true), (3, some false), (4, some false), (5, none)] ∧
+    (fixStereoMol ch m env []).2.asked.length = 2 := by decide
+
+end FromFinal
 
 end ChythonModel.Props.C20
